@@ -321,21 +321,34 @@ def _model_clone(m, r):
 
 
 def exhaustive(pool, L, shard, nshards):
-    """DFS over the model; yields maximal sequences (every prefix is checked when run)."""
-    top = Model(pool).valid_ops(full=False)
-    for ti, first in enumerate(top):
+    """DFS over the model; yields maximal sequences (every prefix is checked when run).
+    The work is dealt out by the index of the length-2 prefix (dealing by the first operation alone left one shard with
+    a third of the space)."""
+    def extend(seq):
+        m = Model(pool)
+        for op in seq:
+            model_step(m, op)
+        return m.valid_ops(full=False)
+    split = 2 if L >= 2 else 1
+    roots = [[op] for op in extend([])]
+    if split == 2:
+        r2 = []
+        for seq in roots:
+            nxt = extend(seq)
+            if not nxt:
+                r2.append(seq)
+            r2.extend(seq + [op] for op in nxt)
+        roots = r2
+    for ti, root in enumerate(roots):
         if ti % nshards != shard:
             continue
-        stack = [[first]]
+        stack = [root]
         while stack:
             seq = stack.pop()
-            if len(seq) == L:
+            if len(seq) >= L:
                 yield seq
                 continue
-            m = Model(pool)
-            for op in seq:
-                model_step(m, op)
-            nxt = m.valid_ops(full=False)
+            nxt = extend(seq)
             if not nxt:
                 yield seq
                 continue
